@@ -8,7 +8,7 @@ optionally ``null:``).  The recipe is built by the real
 ``search_result_from_parent_map`` and, for every tip set of <= 2 keys (known,
 unknown, ghost or foreign) and every depth in {1,2,3,100}, by the real
 ``limited_search_result_from_parent_map`` (tip sets of one key only at the largest bound of
-the thorough tier); serialised by the real
+the thorough tier: 4 nodes + 2 ghosts); serialised by the real
 ``RemoteRepository._serialise_search_recipe``; replayed by the real
 ``SmartServerRepositoryRequest.recreate_search_from_recipe`` on the full graph
 (vcsgraph ``Graph`` over the complete parent map).  Oracle: the count check
@@ -424,7 +424,8 @@ def _smallest(violations):
 def plan(ctx):
     """[(n, nghost, variants, limited, max_tips)] for part A."""
     if ctx.thorough:
-        return [(n, 2, True, True, 2) for n in range(1, 5)] + [(5, 2, True, False, 0), (5, 1, False, True, 1),
+        return [(n, 2, True, True, 2) for n in range(1, 4)] + [(4, 2, True, True, 1), (4, 1, False, True, 2),
+                                                               (5, 1, True, False, 0), (5, 2, False, False, 0),
                                                                (6, 0, False, False, 0)]
     return [(n, 2, True, True, 2) for n in range(1, 4)] + [(4, 2, True, False, 0), (4, 1, False, True, 2),
                                                            (5, 1, False, False, 0)]
@@ -447,8 +448,11 @@ def run(ctx):
         bounds.append({"nodes": n, "ghosts": ng, "null_variants": variants, "depth_limited": bool(limited),
                        "max_tip_keys": max_tips if limited else None})
     acc = par.merge(par.pmap(_work, items, seed=ctx.seed, chunks_per_job=8))
-    nb, gb = ctx.q(3, 4), ctx.q(1, 1)
-    b_items = [d for n in range(1, nb + 1) for d in graphs(n, gb)]
+    if ctx.thorough:
+        b_plan = [(1, 2), (2, 2), (3, 2), (4, 0)]
+    else:
+        b_plan = [(1, 1), (2, 1), (3, 1)]
+    b_items = [d for n, g in b_plan for d in graphs(n, g)]
     accb = par.merge(par.pmap(_work_b, b_items, seed=ctx.seed, chunks_per_job=8))
     ctx.extend(_smallest(acc.violations + accb.violations))
     ctx.assumptions.append("server graph = the full graph (no ghost is filled in between the client's requests and the replay)")
@@ -470,7 +474,7 @@ def run(ctx):
                 "non-trivial = unlimited recipe whose known set is not ancestry-closed or has known-missing keys (a stop key "
                 "or ghost matters), limited recipe whose walk is non-empty, end-to-end request whose ancestry meets the known set",
         "bounds": bounds,
-        "e2e_bounds": {"nodes": nb, "ghosts": gb, "requested": "<=2 keys not known", "depths": [1, 2, 100]},
+        "e2e_bounds": {"nodes_ghosts": [list(x) for x in b_plan], "requested": "<=2 keys not known", "depths": [1, 2, 100]},
         "tips": "every set of <= max_tip_keys keys over nodes + ghosts + one foreign key", "depths": list(DEPTHS),
         "samples": acc.samples[:3],
         "exhaustive": True,
